@@ -109,8 +109,27 @@ func storePath(v Value, path []PathEl, nv Value, g *Term) Value {
 	return r
 }
 
-func (ex *Exec) load(st *State, p Value) Value {
+// liveAlts drops the alternatives whose guard is refuted by the literal facts of the path condition.
+func liveAlts(st *State, p Value) []Alt {
 	as := alts(p)
+	if len(as) < 2 || len(st.pcs) == 0 {
+		return as
+	}
+	out := as[:0:0]
+	for _, a := range as {
+		if st.known(a.G) == 0 {
+			continue
+		}
+		out = append(out, a)
+	}
+	if len(out) == 0 {
+		return as
+	}
+	return out
+}
+
+func (ex *Exec) load(st *State, p Value) Value {
+	as := liveAlts(st, p)
 	var r Value
 	first := true
 	sawEmpty := false
@@ -146,7 +165,7 @@ func (ex *Exec) load(st *State, p Value) Value {
 }
 
 func (ex *Exec) store(st *State, p Value, v Value) {
-	for _, a := range alts(p) {
+	for _, a := range liveAlts(st, p) {
 		pc := a.V.(*PtrC)
 		if pc.Obj == 0 {
 			continue
